@@ -20,6 +20,7 @@
 //      length (page end - len), `align` is ignored and echoed as the actual address modulo 8.
 // placement kind 3 ("page-start"): the key starts at the first byte of a page whose predecessor is PROT_NONE:
 //      a read before the key faults in every build; the bytes behind the key (rest of the page) hold `fill`.
+// placement kind 5 ("null"): the empty key passed as a null pointer (length 0 only)
 // placement kind 4 ("reused"): a buffer that lives as long as the process and is used for key after key (a record
 //      buffer that is filled and hashed again and again): the key lies 32+align bytes into it, `fill` around it.
 //      Consecutive keys of equal length then have the same address, length and seed and differ only in their bytes.
@@ -120,12 +121,16 @@ int main()
                 int kind = int(pl.a[0].i);
                 std::size_t align = std::size_t(pl.a[1].i);
                 unsigned char fill = (unsigned char)pl.a[2].i;
-                if (align > 15 || kind < 0 || kind > 4) { std::fprintf(stderr, "script: bad placement\n"); return 3; }
+                if (align > 15 || kind < 0 || kind > 5 || (kind == 5 && len != 0)) { std::fprintf(stderr, "script: bad placement\n"); return 3; }
                 static std::vector<unsigned char> reused;
                 if (kind >= 2 && len > gp.page) kind = 1;            // does not fit the guarded page: exact heap block instead
                 unsigned char* block = nullptr;
                 unsigned char* key;
-                if (kind <= 1)
+                if (kind == 5)
+                {
+                    key = nullptr;           // the empty key through a null pointer: no byte may be read
+                }
+                else if (kind <= 1)
                 {
                     std::size_t total = kind == 0 ? 32 + align + len + 48 : align + len;
                     block = static_cast<unsigned char*>(std::malloc(total));   // malloc(0): a pointer no byte of which may be touched
